@@ -182,6 +182,66 @@ func (x *g) txBoundary() {
 	}
 }
 
+// overlap: messages of a FAILING tx overwrite / delete keys the ante handler wrote or merely read
+// (the fee payer's account in production): after the failure only the ante's value may remain.
+func (x *g) overlap() {
+	o := x.o
+	fails := []struct{ name, steps string }{
+		{"oog", "c.1000"}, {"oogexact", "c.61"}, {"oogpanic", "o"}, {"err", "e"}, {"panic", "p"},
+		{"overflow", "c." + rk.MaxI64 + ",c." + rk.MaxI64}, {"negative", "c.-1"}, {"require", "q.x.7a7a.01"},
+	}
+	antes := []struct{ name, steps string }{
+		{"wrote", "w.x.66.02,w.y.73.02,c.10"},               // ante writes the keys
+		{"read", "q.x.66.01,q.y.73.01,c.10"},                // ante only reads them (present)
+		{"readabsent", "q.x.63.-,q.y.62.-,c.10"},            // ante reads keys that do not exist
+		{"readwrote", "q.x.66.01,w.x.66.02,q.y.73.01,c.10"}, // read one, read+write the other
+		{"deleted", "d.x.66,q.y.73.01,c.10"},                // ante deletes a key
+	}
+	touches := []struct{ name, steps string }{
+		{"overwrite", "w.x.66.04,w.y.73.04,w.x.63.04,w.y.62.04"},
+		{"delete", "d.x.66,d.y.73,w.x.63.04"},
+		{"twice", "w.x.66.03,w.x.66.04,d.y.73,w.y.73.04,w.y.62.03,d.y.62"},
+	}
+	for _, a := range antes {
+		for _, t := range touches {
+			for _, f := range fails {
+				for _, kind := range []string{"b", "bR"} {
+					x.hdr("overlap-" + a.name + "-" + t.name + "-" + f.name)
+					o.Op("init 1000")
+					o.Op("begin")
+					o.Op(rk.TxLine("tx", 70, "A:b::w.x.66.01,w.y.73.01", rk.MsgTok("M", "w.x.61.01")))
+					// message 1 touches the ante's keys and succeeds, message 2 touches them again and fails
+					o.Op(rk.TxLine("tx", 70, rk.AnteTok(kind, "", a.steps),
+						rk.MsgTok("M", t.steps+",c.5"), rk.MsgTok("M", rk.Steps(t.steps, f.steps, "w.x.66.05"))))
+					// a follow-up that passes only on the exact ante-only state is not needed: the oracle
+					// compares the whole deliver state; this one shows later txs see it too
+					o.Op(rk.TxLine("tx", 70, "A:b::", rk.MsgTok("M", "w.x.61.02")))
+					o.Op("end")
+				}
+			}
+		}
+		// the same tx failing because it crosses the BLOCK gas limit, and failing in the ante
+		for _, t := range touches {
+			x.hdr("overlap-block-" + a.name + "-" + t.name)
+			o.Op("init 100")
+			o.Op("begin")
+			o.Op(rk.TxLine("tx", 200, "A:b::w.x.66.01,w.y.73.01", rk.MsgTok("M", "w.x.61.01,c.60")))
+			o.Op(rk.TxLine("tx", 200, rk.AnteTok("b", "", a.steps), rk.MsgTok("M", t.steps+",c.51")))
+			o.Op("end")
+			x.hdr("overlap-check-" + a.name + "-" + t.name)
+			o.Op("init 1000")
+			o.Op("begin")
+			o.Op(rk.TxLine("tx", 70, "A:b::w.x.66.01,w.y.73.01", rk.MsgTok("M", "w.x.61.01")))
+			o.Op("end")
+			o.Op(rk.TxLine("check", 70, rk.AnteTok("b", "", a.steps), rk.MsgTok("M", t.steps+",c.100")))
+			o.Op(rk.TxLine("sim", 70, rk.AnteTok("b", "", a.steps), rk.MsgTok("M", t.steps+",c.100")))
+			o.Op("begin")
+			o.Op(rk.TxLine("tx", 70, rk.AnteTok("b", "", a.steps), rk.MsgTok("M", t.steps+",c.100")))
+			o.Op("end")
+		}
+	}
+}
+
 func (x *g) blockBoundary() {
 	o := x.o
 	// fill a block step by step: exact fill, crossing, already exhausted; every max-gas flavour
@@ -276,7 +336,19 @@ func (x *g) randomTx(op string) string {
 		prev = c
 	}
 	parts[n] = total - int64(prev)
-	as := []string{rk.W("x.66", kit.Pick(r, rk.GenVals)), rk.C(parts[0])}
+	anteKeys := append([]string{"x.66", "y.73"}, rk.GenKeys...)
+	as := []string{rk.W("x.66", kit.Pick(r, rk.GenVals))}
+	if r.Chance(40) {
+		// the ante reads (value unknown to the generator: require "absent or anything" is not
+		// expressible, so read via a write-after-read of the same value class) or writes message keys
+		k := kit.Pick(r, anteKeys)
+		if r.Bool() {
+			as = append(as, rk.W(k, kit.Pick(r, rk.GenVals)))
+		} else {
+			as = append([]string{rk.Q(k, kit.Pick(r, append([]string{"-"}, rk.GenVals...)))}, as...)
+		}
+	}
+	as = append(as, rk.C(parts[0]))
 	if r.Chance(8) {
 		as = append(as, kit.Pick(r, []string{"e", "p", "o", "z", "n"}))
 	}
@@ -286,7 +358,11 @@ func (x *g) randomTx(op string) string {
 	}
 	var msgs []string
 	for i := 0; i < n; i++ {
-		st := []string{rk.W(kit.Pick(r, rk.GenKeys), kit.Pick(r, rk.GenVals)), rk.C(parts[i+1])}
+		st := []string{rk.W(kit.Pick(r, anteKeys), kit.Pick(r, rk.GenVals))}
+		if r.Chance(20) {
+			st = append(st, rk.D(kit.Pick(r, anteKeys)))
+		}
+		st = append(st, rk.C(parts[i+1]))
 		if r.Chance(15) {
 			k := int64(r.Intn(6))
 			st = append(st, rk.R(k), rk.C(k))
@@ -356,6 +432,7 @@ func gen(o *kit.Out, r *kit.Rand, tier string) {
 	x := &g{o: o, r: r}
 	x.meterBoundary()
 	x.txBoundary()
+	x.overlap()
 	x.blockBoundary()
 	if tier == "thorough" {
 		x.meterRandom(3000)
